@@ -197,6 +197,25 @@ def _image(spec, ctx, R):
         # large-magnitude images must come back unchanged from the default call
         back = Q.quat_to_rgb(q.copy())
         ctx.check("rgb_roundtrip", np.array_equal(back, rgb.astype(np.float64)), site="quat_to_rgb(default):not_normalized", detail={"kind": kind})
+    # colour channels on DIFFERENT scales (one 8-bit style, one small, one that alone "looks normalized" with values in (1, 1.5]; any order):
+    # the image as a whole is not normalized, so the default call returns every channel unchanged -- a per-channel decision would clip one
+    amps = [[250.0, 80.0, 1.4], [1.4, 250.0, 80.0], [3.0, 1.45, 1.2], [1e6, 1.0, 1.3], [1.49, 1.49, 1.51], [40.0, 1.2, 0.9]][(spec["idx"] // 2) % 6]
+    mixed = rng.random((H, W, 3)) * np.array(amps)
+    mixed[0, 0, :] = amps                               # every channel attains its peak
+    if float(mixed.max()) > 1.5:
+        qm = Q.rgb_to_quat(mixed.copy(), real_part=rp)
+        for form_, call in (("default", lambda: Q.quat_to_rgb(qm.copy())), ("clip=True", lambda: Q.quat_to_rgb(qm.copy(), clip=True)),
+                            ("clip=False", lambda: Q.quat_to_rgb(qm.copy(), clip=False))):
+            back = call()
+            ctx.check("rgb_roundtrip", np.array_equal(back, mixed), site=f"quat_to_rgb({form_}):channels_on_different_scales",
+                      detail={"amps": amps, "changed_channels": [int(c) for c in range(3) if not np.array_equal(back[..., c], mixed[..., c])]})
+        ctx.hit("inputs:channels_on_different_scales")
+    # one pixel outside the "looks normalized" window in an otherwise [0,1] image: nothing may be clipped
+    lone = rng.random((H, W, 3)) * 1.3
+    lone[H - 1, W - 1, int(rng.integers(0, 3))] = [1.75, 255.0, -0.75][spec["idx"] % 3]
+    if float(lone.max()) > 1.0 or float(lone.min()) < 0.0:
+        back = Q.quat_to_rgb(Q.rgb_to_quat(lone.copy(), real_part=rp))
+        ctx.check("rgb_roundtrip", np.array_equal(back, lone), site="quat_to_rgb(default):one_pixel_outside_window")
     qc = q.copy()
     _ = Q.quat_to_rgb(qc, clip=True)
     ctx.check("rgb_roundtrip", np.array_equal(qc, q), site="quat_to_rgb:input_unchanged")
